@@ -512,6 +512,15 @@ def discharge_by_guard(p, s):
         return None
     # calls
     decl = s.what
+    if decl in DISPLAY_CTORS:
+        # a fallible Display only panics when the formatted text goes through io::Write::write_fmt / format! / to_string;
+        # written with fmt::Write::write_fmt the error is the call's Result
+        users = [c for c in fn.calls() if any(x[0] == "call" and x[1] == decl and len(x) > 3 and x[3] == s.block for a in c.arg_exprs() for x in walk(a))]
+        users = [c for c in users if c.block != s.block and not (c.callee or "").startswith("core::fmt::rt::Argument") and not (c.callee or "").startswith("core::fmt::Arguments")]
+        # only the calls that take the Arguments value itself (not values computed from the formatting call's result)
+        users = [c for c in users if not any(x[0] == "call" and x[1].endswith("::write_fmt") for a in c.arg_exprs() for x in walk(a))]
+        if users and all(c.decl == "core::fmt::Write::write_fmt" for c in users):
+            return "the formatted value is written with fmt::Write::write_fmt: a Display error is returned as Err, not turned into a panic"
     if s.t.get("target") is None and s.kind == "call":
         # diverging call (panic!/unreachable!): unreachable if the enum tests on the way exclude every variant
         excluded = {}
